@@ -246,6 +246,19 @@ func gen(r *hlib.Rand, n int, tier, profile string, emit func(string, ...any)) {
 			emit("reload lh=%s lhs=%s st=%s cr=%s G %s", hlib.B(cfgLH), cfgLhs, cfgSt, cfgCr, cfgG)
 		}
 		nReload := hlib.Pick(r, 0, 0, 1, 1, 2, 3)
+		if strings.Contains(g, " R ") && lhs != "-" {
+			// per-range lists are keyed by the PEER's overlay address, not by the lighthouse that relays the news:
+			// a punch notification and an answer about peers inside / outside the ranges, carrying addresses the
+			// range lists deny
+			for x := r.Intn(3); x > 0; x-- {
+				peer := hx(hlib.Pick(r, "10.128.0.10", "10.128.0.11", "10.128.0.12", "10.128.0.20", "10.128.0.30", "fd80::10"))
+				l4 := strings.Join([]string{hlib.AddrPortHex(netip.MustParseAddrPort("70.1.1.1:4242")), hlib.AddrPortHex(netip.MustParseAddrPort("8.8.8.8:4242")),
+					hlib.AddrPortHex(netip.MustParseAddrPort("1.1.1.1:4242")), hlib.AddrPortHex(netip.MustParseAddrPort("172.16.0.9:4242")), ap4(r)}, ",")
+				emit("msg %s %d 2 %s %s %s - -", hx(hlib.Pick(r, "10.128.0.2", "10.128.0.3")), hlib.Pick(r, 5, 5, 2), peer, l4,
+					hlib.Pick(r, "-", hlib.AddrPortHex(netip.MustParseAddrPort("[2001:db8::1]:4242"))+","+hlib.AddrPortHex(netip.MustParseAddrPort("[::ffff:70.1.1.1]:1"))))
+				i++
+			}
+		}
 		i++
 		from := func() string {
 			switch r.Intn(10) {
